@@ -26,13 +26,16 @@ def handle (tb : Tables) (c impl : T) : String :=
     if diff.isEmpty then (if refAsModel then "ok" else v)
     else if refAsModel then "mismatch spec-bad strategies-differ:" ++ ",".intercalate diff
     else v
-  | .node "c02a" [_], .node "obs" [same] =>
+  | .node "c02a" [_, optAbsent], .node "obs" [same] =>
     -- arguments: the reflection-backed method and the Resolver were asked the same field with the same literals
     -- and variables and must have answered the same (D72: reflection used to pass the request's values on
     -- uncoerced, an Int literal as int64 and an Int variable as int32)
-    if same == T.ofBool true then "ok" else "mismatch spec-bad strategies-differ:reflection-arguments"
+    -- D94: an optional argument left out (or null) was an error under reflection only
+    if same == T.ofBool true then "ok"
+    else if tb.reflectOptionalRefused && optAbsent == T.ofBool true then "dev D94"
+    else "mismatch spec-bad strategies-differ:reflection-arguments"
   | _, _ => "bad-op"
 
-def flags (_tb : Tables) : List (String × Bool) := []
+def flags (tb : Tables) : List (String × Bool) := [("D94", tb.reflectOptionalRefused)]
 
 end Ggql.Driver.C02
